@@ -399,6 +399,13 @@ theorem gstep3 (f : Nat) (H3 : S3 c f) (H4 : S4 c f) : S3 c (f + 1) := by
         ret_auto
         all_goals exact hsub _
 
+theorem ret_aliasMember (a : Item) : Ret T (aliasMember c a) := by
+  unfold aliasMember
+  split
+  · exact Ret.bind (ret_renderField _ _ _ _ _ _ _ _ (by decide)) (fun _ _ _ => trivial)
+  · exact Ret.bind (ret_renderField _ _ _ _ _ _ _ _ (by decide)) (fun _ _ _ => trivial)
+  · trivial
+
 theorem gstep2 (f : Nat) (H2 : S2 c f) (H3 : S3 c f) : S2 c (f + 1) := by
   intro name pfx vsels vts hI hvts
   cases vts with
@@ -412,7 +419,7 @@ theorem gstep2 (f : Nat) (H2 : S2 c f) (H3 : S3 c f) : S2 c (f + 1) := by
     rw [calcVariants.eq_3]
     simp only []
     ret_auto
-    all_goals exact hmine _
+    all_goals first | exact hmine _ | exact (ret_mapM _ _ (fun x _ => ret_aliasMember c x)).true
 
 theorem gstep1 (hg : WfG c.s) (f : Nat) (H2 : S2 c f) (H4 : S4 c f) : S1 c (f + 1) := by
   intro name pfx ty sels hty hsels
